@@ -1,13 +1,55 @@
-(* C01 - statement file (being filled in) *)
+(* C01 - frame encode/decode round trip for every message type.  Statement file. *)
 From Coq Require Import List NArith ZArith Bool.
-From LW Require Import Base.Outcome Base.Bytes Mac.Commands Mac.Spec Mac.Stream Frame.Model Frame.Spec.
+From LW Require Import Base.Outcome Base.Bytes Mac.Commands Mac.Spec Mac.Stream Frame.Model Frame.Spec
+     Frame.RoundtripProofs Frame.CanonProofs.
+From LW Require Sec.JoinAcceptProofs Crypto.AESInv.
 Import ListNotations.
 Open Scope N_scope.
-Theorem C01_placeholder_mhdr : forall mt mj, mt < 8 -> mj < 4 -> mhdr_marshal mt mj < 256.
+
+(* every spec-valid frame value (all 8 MTypes, any FCtrl flags, 0-15 bytes of FOpts,
+   FPort absent / 0 / 1..255, FRMPayload of any length, all field contents) encodes, and
+   decoding those bytes yields the original frame under the stated equivalence
+   wire_view: FCnt modulo 2^16, ClassB = FPending = their disjunction, FOpts and
+   FRMPayload as the bytes they carry (C07 turns those back into commands), a
+   join-accept as its (to the frame decoder opaque) bytes *)
+Theorem C01_roundtrip : forall p, spec_valid p = true ->
+  exists bs, phy_marshal p = Ok bs /\ phy_unmarshal bs = Ok (wire_view p).
+Proof. exact frame_roundtrip. Qed.
+Print Assumptions C01_roundtrip.
+
+(* a value the encoder refuses is never one the specification allows *)
+Theorem C01_refusal_sound : forall p, phy_marshal p = Err -> spec_valid p = false.
 Proof.
-  intros mt mj H1 H2. unfold mhdr_marshal, shl8.
-  assert (E : mt = 0 \/ mt = 1 \/ mt = 2 \/ mt = 3 \/ mt = 4 \/ mt = 5 \/ mt = 6 \/ mt = 7) by (zify; Lia.lia).
-  assert (F : mj = 0 \/ mj = 1 \/ mj = 2 \/ mj = 3) by (zify; Lia.lia).
-  destruct E as [->|[->|[->|[->|[->|[->|[->| ->]]]]]]]; destruct F as [->|[->|[->| ->]]]; vm_compute; reflexivity.
+  intros p H. destruct (spec_valid p) eqn:E; [|reflexivity].
+  destruct (frame_roundtrip p E) as (bs & Hm & _). congruence.
 Qed.
-Print Assumptions C01_placeholder_mhdr.
+Print Assumptions C01_refusal_sound.
+
+(* join-accept payload codec (the frame decoder leaves it opaque until decrypted):
+   12- and 28-byte forms, both CFList kinds; equality up to trailing all-zero channel
+   masks, which the 16-byte CFList cannot represent (finding C01-1 / C04-1) *)
+Theorem C01_joinaccept_codec : forall p, spec_valid p = true -> Sec.JoinAcceptProofs.is_join_accept p ->
+  exists body, payload_marshal (pl p) = Ok body /\ Forall Crypto.AESInv.byte body /\
+    (length body = 12 \/ length body = 28)%nat /\
+    joinaccept_unmarshal body = Ok (Sec.JoinAcceptProofs.wire_payload (pl p)).
+Proof. exact joinaccept_codec. Qed.
+Print Assumptions C01_joinaccept_codec.
+
+(* ... and literal equality is refuted by the recorded witness *)
+Theorem C01_trailing_zero_mask_refuted :
+  exists p body, spec_valid (mkPHY JoinAccept 0 p [0;0;0;0]) = true /\ payload_marshal p = Ok body /\
+                 joinaccept_unmarshal body <> Ok p.
+Proof.
+  exists (PLJoinAccept 0 [0;0;0] [0;0;0;0] false 0 0 0
+           (Some (mkCFList (CFPMasks [true :: repeat false 15; repeat false 16]) 1))).
+  eexists. split; [vm_compute; reflexivity|]. split; [vm_compute; reflexivity|]. vm_compute. discriminate.
+Qed.
+Print Assumptions C01_trailing_zero_mask_refuted.
+
+(* non-vacuity: one spec-valid frame per family *)
+Example C01_example_data :
+  spec_valid (mkPHY ConfirmedDataUp 0
+     (PLMac (mkMAC (mkFHDR [1;2;3;4] (mkFCtrl true false true false true 0) 0x12345
+                           [IMac 2 None; IMac 3 (Some (PLinkADRAns true true false))])
+                   (Some 10) [IData [1;2;3]])) [9;9;9;9]) = true.
+Proof. vm_compute. reflexivity. Qed.
